@@ -332,7 +332,7 @@ fn run_push(case: &Value) -> Value {
     let items = items_of(case);
     let downs = case["downs"].as_array().cloned().unwrap_or_default();
     let nd = match comb {
-        "fanout" | "unzip" | "fanout_fold_keyed" => 2,
+        "fanout" | "unzip" | "fanout_fold_keyed" | "pipe_flatmap_fanout" | "pipe_filter_fanout_fold" => 2,
         "demux" => downs.len(),
         _ => 1,
     };
@@ -456,6 +456,42 @@ fn run_push(case: &Value) -> Value {
                 ql.borrow_mut().push(json!(["s", f.v]));
             }
             return finish(r.0, r.1, &[logs[0].clone(), ql]);
+        }
+        // pipelines (composition): flat_map -> fanout(rec0, rec1)
+        "pipe_flatmap_fanout" => {
+            let g = G::parse(&case["g"]);
+            drive!(push::flat_map(move |x: u64| g.ap(x), push::fanout(rec(0), rec(1))), ns(), fuel, &mut ())
+        }
+        // map -> flat_map -> filter -> rec0
+        "pipe_map_flatmap_filter" => {
+            let f = F::parse(&case["f"]);
+            let g = G::parse(&case["g"]);
+            let q = Q::parse(&case["q"]);
+            drive!(
+                push::map(move |x: u64| f.ap(x), push::flat_map(move |x: u64| g.ap(x), push::filter(move |x: &u64| q.ap(*x), rec(0)))),
+                ns(),
+                fuel,
+                &mut ()
+            )
+        }
+        // filter -> fanout(map -> rec0, fold -> rec1)
+        "pipe_filter_fanout_fold" => {
+            let f = F::parse(&case["f"]);
+            let q = Q::parse(&case["q"]);
+            let o = O::parse(&case["o"]);
+            let init = case["init"].as_u64().unwrap_or(0);
+            drive!(
+                push::filter(
+                    move |x: &u64| q.ap(*x),
+                    push::fanout(
+                        push::map(move |x: u64| f.ap(x), rec(0)),
+                        push::fold(init, move |acc: &mut u64, x: u64| *acc = o.ap(*acc, x), rec(1))
+                    )
+                ),
+                ns(),
+                fuel,
+                &mut ()
+            )
         }
         // consequence probe (no Coq model): resolve_futures(subgraph waker) -> fold -> downstream 0
         "resolve_fold" => {
